@@ -16,17 +16,23 @@ import (
 	"encoding/json"
 	"fmt"
 	"math/rand"
+	"net/http"
 	"sort"
 	"strings"
 	"time"
 
+	"k8s.io/apimachinery/pkg/api/meta"
 	metav1 "k8s.io/apimachinery/pkg/apis/meta/v1"
+	"k8s.io/client-go/discovery"
+	"k8s.io/client-go/rest"
+	"k8s.io/client-go/tools/clientcmd"
 	"sigs.k8s.io/yaml"
 
 	"helm.sh/helm/v4/pkg/action"
 	chart "helm.sh/helm/v4/pkg/chart/v2"
 	chartutil "helm.sh/helm/v4/pkg/chart/v2/util"
 	"helm.sh/helm/v4/pkg/kube"
+	releaseutil "helm.sh/helm/v4/pkg/release/util"
 	rspb "helm.sh/helm/v4/pkg/release/v1"
 	"helm.sh/helm/v4/pkg/storage"
 	"helm.sh/helm/v4/pkg/storage/driver"
@@ -41,6 +47,7 @@ type actStep struct {
 	Force         bool     `json:"force,omitempty"`
 	TakeOwnership bool     `json:"take_ownership,omitempty"`
 	Version       int      `json:"version,omitempty"` // rollback target, 0 = previous
+	Recreate      bool     `json:"recreate,omitempty"` // upgrade / rollback --recreate-pods
 	Set           *objRes  `json:"set,omitempty"`
 	Del           string   `json:"del,omitempty"`
 }
@@ -69,6 +76,15 @@ type actStepObs struct {
 	Objs    map[string]map[string]interface{} `json:"objs"`
 	Ledger  []actRow                          `json:"ledger"`
 	Panic   string                            `json:"panic,omitempty"`
+	// what happened to the store after the last recorded client call (action.recreate deletes pods through a
+	// clientset of its own) and which resources that call reported as updated
+	TailMuts []nsim.Mut `json:"tail_muts,omitempty"`
+	Kept     string     `json:"kept,omitempty"` // uninstall: the response's Info
+	// the manifest text the operation worked from (uninstall: the latest revision's; install / upgrade: the new
+	// revision's), what the real SplitManifests makes of it and how many objects the real decoder (Build) sees
+	ManifestText string   `json:"manifest_text,omitempty"`
+	HelmDocs     []string `json:"helm_docs,omitempty"`
+	DecoderDocs  int      `json:"decoder_docs"`
 }
 
 type actObs struct {
@@ -83,6 +99,8 @@ type actClient struct {
 	srv    *nsim.Server
 	calls  *[]actCall
 	panics *[]string
+	// keys of Result.Updated of the last Update call
+	lastUpdated []string
 }
 
 func (c *actClient) IsReachable() error { return nil }
@@ -137,6 +155,7 @@ func resOfObject(o map[string]interface{}, ns, kind, ver, name string) objRes {
 // record runs one client call; a panic inside the real client is recorded (the oracle reports it) and handed
 // to the action as an error: the action may run the call in its own goroutine, where nobody could recover it.
 func (c *actClient) record(st objStep, run func() (bool, string, []string)) (panicked error) {
+	c.lastUpdated = nil
 	call := actCall{Step: st, Before: c.srv.SnapshotRaw()}
 	c.srv.TakeMuts()
 	func() {
@@ -184,10 +203,14 @@ func (c *actClient) update(o, t kube.ResourceList, force, tw bool) (res *kube.Re
 		var created []string
 		if res != nil {
 			created = infoKeys(res.Created)
+			c.lastUpdated = infoKeys(res.Updated)
 		}
 		return err == nil, errText(err), created
 	}); p != nil {
 		return &kube.Result{}, p
+	}
+	if n := len(*c.calls); n > 0 {
+		(*c.calls)[n-1].Obs.Updated = c.lastUpdated
 	}
 	return
 }
@@ -225,14 +248,85 @@ func actChart(n int, rs []objRes) *chart.Chart {
 	c := &chart.Chart{Metadata: &chart.Metadata{APIVersion: "v2", Name: "c", Version: fmt.Sprintf("0.%d.0", n)}}
 	for i, r := range rs {
 		y, _ := yaml.Marshal(objFull(r))
+		if r.Sep != "" && len(c.Templates) > 0 {
+			f := c.Templates[len(c.Templates)-1]
+			if r.Sep == "flow" {
+				// the document in flow (JSON) style on the separator line itself: "--- {...}"
+				j, _ := json.Marshal(objFull(r))
+				f.Data = append(append(f.Data, []byte("--- ")...), append(j, '\n')...)
+			} else if r.Sep == "crlf" {
+				f.Data = []byte(strings.ReplaceAll(strings.ReplaceAll(string(f.Data), "\r\n", "\n")+"---\n"+string(y), "\n", "\r\n"))
+			} else {
+				f.Data = append(append(f.Data, []byte(r.Sep+"\n")...), y...)
+			}
+			continue
+		}
 		c.Templates = append(c.Templates, &chart.File{Name: fmt.Sprintf("templates/r%02d.yaml", i), Data: y})
 	}
 	return c
 }
 
+// actGetter hands action.recreate (cfg.KubernetesClientSet) a REST config whose transport is the simulated
+// API server.
+type actGetter struct{ srv *nsim.Server }
+
+type actRT struct{ srv *nsim.Server }
+
+func (t actRT) RoundTrip(r *http.Request) (*http.Response, error) { return t.srv.RoundTrip(r) }
+
+func (g actGetter) ToRESTConfig() (*rest.Config, error) {
+	return &rest.Config{Host: "http://nsim.invalid", Transport: actRT{g.srv},
+		ContentConfig: rest.ContentConfig{ContentType: "application/json", AcceptContentTypes: "application/json"}}, nil
+}
+func (g actGetter) ToDiscoveryClient() (discovery.CachedDiscoveryInterface, error) {
+	return nil, fmt.Errorf("no discovery in the stand-in")
+}
+func (g actGetter) ToRESTMapper() (meta.RESTMapper, error) { return nil, fmt.Errorf("no REST mapper in the stand-in") }
+func (g actGetter) ToRawKubeConfigLoader() clientcmd.ClientConfig { return nil }
+
+// actSplit: the real splitter's documents in order, and the number of objects the real decoder sees
+func actSplit(kc *kube.Client, text string) ([]string, int) {
+	m := releaseutil.SplitManifests(text)
+	keys := make([]string, 0, len(m))
+	for k := range m {
+		keys = append(keys, k)
+	}
+	sort.Slice(keys, func(i, j int) bool {
+		var a, b int
+		fmt.Sscanf(keys[i], "manifest-%d", &a)
+		fmt.Sscanf(keys[j], "manifest-%d", &b)
+		return a < b
+	})
+	docs := make([]string, len(keys))
+	for i, k := range keys {
+		docs[i] = m[k]
+	}
+	n := -1
+	if rl, err := kc.Build(strings.NewReader(text), false); err == nil {
+		n = len(rl)
+	} else if strings.TrimSpace(text) == "" {
+		n = 0
+	}
+	return docs, n
+}
+
+// actParseManifest reads a release manifest the way the property text does: a line that starts with "---" ends
+// a document (whatever follows on that line), every document is one resource.  Written independently of
+// releaseutil.SplitManifests.
 func actParseManifest(m string) []objRes {
 	var out []objRes
-	for _, doc := range strings.Split("\n"+m, "\n---") {
+	var docs []string
+	var cur []string
+	for _, ln := range strings.Split(m, "\n") {
+		if strings.HasPrefix(ln, "---") {
+			docs = append(docs, strings.Join(cur, "\n"))
+			cur = nil
+			continue
+		}
+		cur = append(cur, ln)
+	}
+	docs = append(docs, strings.Join(cur, "\n"))
+	for _, doc := range docs {
 		var o map[string]interface{}
 		if err := yaml.Unmarshal([]byte(doc), &o); err != nil || o == nil {
 			continue
@@ -252,6 +346,53 @@ func actParseManifest(m string) []objRes {
 		out = append(out, resOfObject(o, ns, kind, ver, name))
 	}
 	return out
+}
+
+// actSelector: the pod selector a manifest entry itself declares (Deployment: spec.selector.matchLabels,
+// Service: spec.selector), nil when it declares none.
+func actSelector(r objRes) map[string]string {
+	_, kind := nsim.SplitKind(r.Kind)
+	spec, _ := r.Body["spec"].(map[string]interface{})
+	var raw map[string]interface{}
+	switch kind {
+	case "Deployment":
+		sel, _ := spec["selector"].(map[string]interface{})
+		raw, _ = sel["matchLabels"].(map[string]interface{})
+	case "Service":
+		raw, _ = spec["selector"].(map[string]interface{})
+	}
+	if len(raw) == 0 {
+		return nil
+	}
+	out := map[string]string{}
+	for k, v := range raw {
+		out[k] = fmt.Sprint(v)
+	}
+	return out
+}
+
+// actPodOfRelease: the pod (a stored object) carries every label some manifest entry of its namespace selects by.
+func actPodOfRelease(key string, pod map[string]interface{}, manifest []objRes) bool {
+	ns, _ := nsim.SplitKind(kindOfKey(key))
+	md, _ := pod["metadata"].(map[string]interface{})
+	lbl, _ := md["labels"].(map[string]interface{})
+	for _, r := range manifest {
+		rns, _ := nsim.SplitKind(r.Kind)
+		sel := actSelector(r)
+		if sel == nil || rns != ns {
+			continue
+		}
+		ok := true
+		for k, v := range sel {
+			if lv, has := lbl[k]; !has || fmt.Sprint(lv) != v {
+				ok = false
+			}
+		}
+		if ok {
+			return true
+		}
+	}
+	return false
 }
 
 func actLedger(d driver.Driver) []actRow {
@@ -290,7 +431,18 @@ func actExecute(c *actCase) (o actObs) {
 			var calls []actCall
 			var panics []string
 			kc := &actClient{Client: srv.Client(), srv: srv, calls: &calls, panics: &panics}
-			cfg := &action.Configuration{KubeClient: kc, Releases: storage.Init(mem), Capabilities: chartutil.DefaultCapabilities.Copy()}
+			cfg := &action.Configuration{KubeClient: kc, Releases: storage.Init(mem), Capabilities: chartutil.DefaultCapabilities.Copy(),
+				RESTClientGetter: actGetter{srv}}
+			lastText := func() string {
+				if rs, _ := mem.List(func(*rspb.Release) bool { return true }); len(rs) > 0 {
+					sort.Slice(rs, func(i, j int) bool { return rs[i].Version < rs[j].Version })
+					return rs[len(rs)-1].Manifest
+				}
+				return ""
+			}
+			if s.Op == "uninstall" {
+				so.ManifestText = lastText()
+			}
 			var err error
 			func() {
 				defer func() {
@@ -308,21 +460,32 @@ func actExecute(c *actCase) (o actObs) {
 				case "upgrade":
 					a := action.NewUpgrade(cfg)
 					a.Namespace = "default"
-					a.DisableHooks, a.Force, a.TakeOwnership = true, s.Force, s.TakeOwnership
+					a.DisableHooks, a.Force, a.TakeOwnership, a.Recreate = true, s.Force, s.TakeOwnership, s.Recreate
 					a.Timeout, a.WaitStrategy = time.Second, kube.HookOnlyStrategy
 					_, err = a.Run(actRel, actChart(i+1, s.Manifest), map[string]interface{}{})
 				case "rollback":
 					a := action.NewRollback(cfg)
-					a.Version, a.DisableHooks, a.Force = s.Version, true, s.Force
+					a.Version, a.DisableHooks, a.Force, a.Recreate = s.Version, true, s.Force, s.Recreate
 					a.Timeout, a.WaitStrategy = time.Second, kube.HookOnlyStrategy
 					err = a.Run(actRel)
 				case "uninstall":
 					a := action.NewUninstall(cfg)
 					a.DisableHooks = true
 					a.Timeout, a.WaitStrategy = time.Second, kube.HookOnlyStrategy
-					_, err = a.Run(actRel)
+					var resp *rspb.UninstallReleaseResponse
+					resp, err = a.Run(actRel)
+					if resp != nil {
+						so.Kept = resp.Info
+					}
 				}
 			}()
+			so.TailMuts = srv.TakeMuts()
+			if s.Op != "uninstall" && err == nil {
+				so.ManifestText = lastText()
+			}
+			if so.ManifestText != "" {
+				so.HelmDocs, so.DecoderDocs = actSplit(srv.Client(), so.ManifestText)
+			}
 			so.Outcome = "ok"
 			if err != nil {
 				so.Outcome, so.ErrText = "err", err.Error()
@@ -353,9 +516,32 @@ func actCoq(c *actCase, o *actObs) string {
 			oo.Steps = append(oo.Steps, objStepObs{Ok: true, Objs: o.Steps[i].Objs})
 			continue
 		}
-		for _, call := range o.Steps[i].Calls {
+		so := o.Steps[i]
+		for _, call := range so.Calls {
 			oc.Steps = append(oc.Steps, call.Step)
 			oo.Steps = append(oo.Steps, call.Obs)
+		}
+		// action.recreate runs after the update of a successful upgrade / rollback, through its own clientset
+		if s.Recreate && (s.Op == "upgrade" || s.Op == "rollback") && len(so.Calls) > 0 {
+			last := so.Calls[len(so.Calls)-1]
+			if last.Step.Verb == "update" && last.Obs.Ok {
+				upd := map[string]bool{}
+				for _, k := range last.Obs.Updated {
+					upd[k] = true
+				}
+				var rs []objRes
+				for _, t := range last.Step.Tgt {
+					if upd[t.Key()] {
+						rs = append(rs, t)
+					}
+				}
+				oc.Steps = append(oc.Steps, objStep{Verb: "recreate", Tgt: rs})
+				oo.Steps = append(oo.Steps, objStepObs{Ok: true, Objs: so.Objs, Muts: so.TailMuts})
+			}
+		}
+		if so.ManifestText != "" && so.DecoderDocs >= 0 {
+			oc.Steps = append(oc.Steps, objStep{Verb: "split", Text: so.ManifestText, Docs: so.HelmDocs, NDocs: so.DecoderDocs})
+			oo.Steps = append(oo.Steps, objStepObs{Ok: true, Objs: so.Objs})
 		}
 	}
 	return objCoq(oc, oo)
@@ -489,6 +675,7 @@ func actOracle(c *actCase, o *actObs) []hx.Violation {
 				if last == nil || last.Status == "uninstalled" {
 					break
 				}
+				var keepNames []string
 				for _, r := range last.Manifest {
 					t := objTree(r.Kind, objFull(r))
 					pol, has := t.at([]string{"metadata", "annotations", "helm.sh/resource-policy"})
@@ -505,9 +692,32 @@ func actOracle(c *actCase, o *actObs) []hx.Violation {
 					} else if _, still := after[r.Key()]; still {
 						add("C02:uninstall-left-resource", fmt.Sprintf("step %d: uninstall succeeded but %s still exists", i, r.Key()))
 					}
+					if keep {
+						_, kind := nsim.SplitKind(r.Kind)
+						keepNames = append(keepNames, "["+kind+"] "+r.Name)
+					}
+				}
+				sort.Strings(keepNames)
+				if listed := keptLines(so.Kept); strings.Join(keepNames, "\n") != strings.Join(listed, "\n") {
+					add("C02:uninstall-kept-list", fmt.Sprintf("step %d: uninstall lists kept resources %q, the manifest keeps %q", i, listed, keepNames))
 				}
 			}
 			for _, k := range allKeys2(before, after) {
+				// --recreate-pods: the pods a manifest object of the NEW revision selects by its own selector belong to
+				// the release's workload and may be deleted; every other pod is a bystander
+				if _, kind := nsim.SplitKind(kindOfKey(k)); kind == "Pod" && s.Recreate && !mine[k] {
+					if _, gone := after[k]; !gone {
+						var prevObjs map[string]map[string]interface{}
+						if i == 0 {
+							prevObjs = o.Before
+						} else {
+							prevObjs = o.Steps[i-1].Objs
+						}
+						if nr := actLast(so.Ledger); nr != nil && prevObjs[k] != nil && actPodOfRelease(k, prevObjs[k], nr.Manifest) {
+							continue
+						}
+					}
+				}
 				if !mine[k] && !objUntouched(before, after, k) {
 					add("C02:bystander-touched", fmt.Sprintf("step %d: %s created, changed or deleted %s, which is in none of the release's manifests", i, s.Op, k))
 				}
@@ -545,6 +755,26 @@ func genActCase(r *rand.Rand) *actCase {
 	if r.Intn(3) == 0 {
 		c.Live = append(c.Live, objRes{Kind: "ConfigMap", Name: "bystander", Body: objBody(gGen(r, gConfigMap))})
 	}
+	// pods in the namespaces (round 5): the labels come from the pool the selectors are drawn from, so some are
+	// selected by the release's Deployments / Services and some are nobody's
+	withPods := r.Intn(2) == 0
+	if withPods {
+		for n := 1 + r.Intn(4); n > 0; n-- {
+			kind := "Pod"
+			if r.Intn(4) == 0 {
+				kind = "other/Pod"
+			}
+			lbl := jm{}
+			for _, k := range []string{"app", "tier"} {
+				if r.Intn(3) > 0 {
+					lbl[k] = gGen(r, gWord)
+				}
+			}
+			c.Live = append(c.Live, objRes{Kind: kind, Name: fmt.Sprintf("p%d", n), Body: jm{"metadata": jm{"labels": lbl},
+				"spec": jm{"containers": jl{jm{"name": "c", "image": "busybox:1"}}}}})
+		}
+	}
+	seps := []string{"---", "--- ", "--- # the next document", "---#glued", "---\t", "crlf", "flow"}
 	flipVer := func(s *slot) {
 		if _, kind := nsim.SplitKind(s.kind); kind == "Deployment" && r.Intn(3) == 0 {
 			if s.ver == "" {
@@ -574,6 +804,22 @@ func genActCase(r *rand.Rand) *actCase {
 			}
 		}
 		r.Shuffle(len(m), func(i, j int) { m[i], m[j] = m[j], m[i] })
+		for i := range m {
+			// an apps/v1 Deployment needs a selector (the API server rejects an empty one)
+			if _, kind := nsim.SplitKind(m[i].Kind); kind == "Deployment" {
+				spec := objBody(m[i].Body["spec"])
+				sel := objBody(spec["selector"])
+				if ml, _ := sel["matchLabels"].(map[string]interface{}); len(ml) == 0 {
+					sel["matchLabels"] = jm{"app": "web"}
+				}
+				spec["selector"] = sel
+				m[i].Body["spec"] = spec
+			}
+			// several documents in one template file, separated in every spelling the YAML stream decoder accepts
+			if i > 0 && r.Intn(3) == 0 {
+				m[i].Sep = seps[r.Intn(len(seps))]
+			}
+		}
 		return m
 	}
 	c.Steps = append(c.Steps, actStep{Op: "install", Manifest: manifest(true)})
@@ -607,10 +853,11 @@ func genActCase(r *rand.Rand) *actCase {
 		case x < 6:
 			st := actStep{Op: "upgrade", Manifest: manifest(false)}
 			st.Force = r.Intn(8) == 0
+			st.Recreate = withPods && r.Intn(2) == 0 || r.Intn(8) == 0
 			c.Steps = append(c.Steps, st)
 			revs++
 		case x < 9 && revs > 1:
-			st := actStep{Op: "rollback", Force: r.Intn(8) == 0}
+			st := actStep{Op: "rollback", Force: r.Intn(8) == 0, Recreate: withPods && r.Intn(2) == 0}
 			if r.Intn(2) == 0 {
 				st.Version = 1 + r.Intn(revs)
 			}
@@ -644,6 +891,14 @@ func actClass(c *actCase, o *actObs) string {
 		f[s.Op] = true
 		if s.Force {
 			f["force"] = true
+		}
+		if s.Recreate {
+			f["recreate"] = true
+		}
+		for _, r := range s.Manifest {
+			if r.Sep != "" {
+				f["shared-file"] = true
+			}
 		}
 		for _, r := range s.Manifest {
 			if v, ok := seen[r.Key()]; ok && v != r.version() {
@@ -711,5 +966,46 @@ func actCorpus() []any {
 		actStep{Op: "install", Manifest: []objRes{wk, dk, cfg}},
 		actStep{Op: "upgrade", Manifest: []objRes{cfg}},
 		actStep{Op: "upgrade", Manifest: []objRes{oWidget("w1", jm{"size": float64(2), "color": "db"}), oDeploy("web", ctr("nginx:1.26")), cfg}}))
+	// round 5, seeded C02-9: two documents in one template file, separated in each spelling the decoder accepts; the
+	// keep policy on one side of the separator only.  Uninstall must delete exactly the non-keep resources and list
+	// the kept ones (file 1: delete a, keep b; file 2: keep c, delete d), also after an upgrade in between.
+	kcm := func(name string, keep bool) objRes {
+		b := jm{"data": jm{"k": "v1"}}
+		if keep {
+			b["metadata"] = jm{"annotations": jm{"helm.sh/resource-policy": "keep"}}
+		}
+		return objRes{Kind: "ConfigMap", Name: name, Body: b}
+	}
+	for n, sep := range []string{"---", "--- ", "--- # keep the next one", "---#glued", "---\t", "crlf", "flow"} {
+		a, b2, c3, d := kcm("a", false), objRes{Kind: "Secret", Name: "b", Body: jm{"metadata": jm{"annotations": jm{"helm.sh/resource-policy": "keep"}}, "data": jm{"p": "YQ=="}}},
+			kcm("c", true), kcm("d", false)
+		b2.Sep, d.Sep = sep, sep
+		steps := []actStep{{Op: "install", Manifest: []objRes{a, b2, c3, d}}}
+		if n%2 == 1 {
+			a2 := kcm("a", false)
+			a2.Body["data"] = jm{"k": "v2"}
+			steps = append(steps, actStep{Op: "upgrade", Manifest: []objRes{a2, b2, c3, d}})
+		}
+		out = append(out, one(nil, append(steps, actStep{Op: "uninstall"})...))
+	}
+	// round 5, seeded C02-10: --recreate-pods with a Deployment, a Service with selector and a Service WITHOUT
+	// selector (ExternalName) among the updated resources; pods of the release, a foreign pod in the namespace and a
+	// pod with the release's labels in another namespace: only the pods the manifest objects select are deleted
+	pod := func(kind, name string, lbl jm) objRes {
+		return objRes{Kind: kind, Name: name, Body: jm{"metadata": jm{"labels": lbl}, "spec": jm{"containers": jl{jm{"name": "c", "image": "busybox:1"}}}}}
+	}
+	svcSel := objRes{Kind: "Service", Name: "web", Body: jm{"spec": jm{"selector": jm{"app": "web", "tier": "db"}, "ports": jl{jm{"port": float64(80)}}}}}
+	svcNoSel := func(target string) objRes {
+		return objRes{Kind: "Service", Name: "ext", Body: jm{"spec": jm{"type": "ExternalName", "externalName": target}}}
+	}
+	pods := []objRes{pod("Pod", "web-1", jm{"app": "web"}), pod("Pod", "web-db", jm{"app": "web", "tier": "db"}), pod("Pod", "stranger", jm{"app": "other"}),
+		pod("Pod", "bare", jm{}), pod("other/Pod", "web-elsewhere", jm{"app": "web"})}
+	out = append(out, one(pods,
+		actStep{Op: "install", Manifest: []objRes{dep("", "nginx:1.25"), svcSel, svcNoSel("a.example.com")}},
+		actStep{Op: "upgrade", Recreate: true, Manifest: []objRes{dep("", "nginx:1.26"), svcSel, svcNoSel("b.example.com")}}))
+	out = append(out, one(pods,
+		actStep{Op: "install", Manifest: []objRes{dep("", "nginx:1.25"), svcNoSel("a.example.com")}},
+		actStep{Op: "upgrade", Manifest: []objRes{dep("", "nginx:1.26"), svcNoSel("b.example.com")}},
+		actStep{Op: "rollback", Recreate: true}))
 	return out
 }
